@@ -75,6 +75,16 @@ def gen_program(rnd, pid, small=False):
             th.append(['sched_abs', c, t, rnd.choice([0, 256, 512, 1024, 4096])])
         else:
             th.append(['sched', c, t, rnd.choice(DELTAS)])
+    if rnd.random() < 0.12 and len(top) >= 2:
+        # motif: two tasks due at the same instant on one clock, the first one clears that clock
+        x, y = top[0], top[1]
+        c = tclock[x]
+        tclock[y] = c
+        d = rnd.choice(DELTAS)
+        for th in threads:
+            th[:] = [op for op in th if not (op[0] in ('sched', 'sched_abs') and op[2] in (x, y))]
+        threads[0] += [['sched', c, x, d], ['sched', c, y, d]]
+        tasks[x]['script'][0]['do'] = [['clear', c]]
     oscn = 0
     for i, th in enumerate(threads):
         if i > 0 and rnd.random() < 0.3:        # the OSC receive thread: incoming datagrams are dispatched via SystemClock
